@@ -520,7 +520,7 @@ func (fc *FontConfigurationGotext) wrapWordBreak(text []rune, style *TextStyle, 
 	copy(outLine, line)
 
 	out := FirstLine{
-		Layout:       layoutGotext{text: text, line: outLine},
+		Layout:       layoutGotext{text: text[:firstLineLength], line: outLine},
 		Length:       firstLineLength,
 		ResumeAt:     resumeAt,
 		FirstLineRTL: firstLineRTL,
